@@ -222,7 +222,7 @@ def _pick_events(args):
 
     T.pick_contrasts = wrapper
     try:
-        design.build(text, w.df)
+        design.build(text, w.df, extra_namespace=dict(w.namespace))
     finally:
         T.pick_contrasts = orig
     return rec, text
